@@ -17,7 +17,7 @@ import z3
 from ..arrays import NDArr, sym_array
 from ..ctx import PyRaise
 from ..objects import Class, Instance
-from ..values import Opaque, is_sym, to_z3
+from ..values import Opaque, is_sym, to_real, to_z3
 from .common import explore_paths, prem_of
 
 PROPERTY = "C04"
@@ -449,10 +449,59 @@ def wrapper_unit(U):
         U.prove(f"wrapper.path{p}.hit_returns_value_of_first_call_with_that_key_and_misses_compute", P, z3.BoolVal(r3 == r1 and r2 != r1 and len(calls) == 2))
 
 
+def solver_reuse_unit(adaptive, dt_given):
+    """a solver object that was used before (arbitrary leftovers in solver.info: last optimal dt, step count, flags) is
+    asked for a new stepper: the real AdaptiveSolverBase.make_stepper / SolverBase.make_stepper hand the backend a
+    solver whose per-run state is what a new solver object would have -- info['dt'] = the dt given, else dt_default;
+    info['steps'] = 0 -- whatever the earlier run left behind"""
+    def unit(U):
+        def body(it):
+            cls = it.module_attr(it.load_module("pde.solvers.base"), "AdaptiveSolverBase")
+            seen = []
+            info = {"dt": z3.Real("dt_left_by_the_earlier_run"), "steps": z3.Int("steps_of_the_earlier_run"), "dt_adaptive": True,
+                    "stochastic": Opaque("earlier"), "post_step_data": Opaque("earlier"), "dt_statistics": Opaque("earlier")}
+
+            def backend_make_stepper(solver, state):
+                seen.append(dict(solver.attrs["info"]))
+                return "stepper"
+
+            backend = Instance(None, {"make_stepper": backend_make_stepper, "name": "numpy"}, name="backend")
+            dflt = z3.Real("dt_default")
+            it.ctx.assume(dflt > 0)
+            solver = Instance(cls, {"info": info, "adaptive": adaptive, "dt_default": dflt, "backend": backend, "pde": Instance(None, {"is_sde": False}, name="pde"),
+                                    "_select_backend": lambda state: None, "_logger": Instance(None, {"warning": lambda *a, **k: None, "info": lambda *a, **k: None}, name="logger")})
+            dt = z3.Real("dt_requested") if dt_given else None
+            if dt_given:
+                it.ctx.assume(dt > 0)
+            r = it.call(it.getattr(solver, "make_stepper"), [Instance(None, {}, name="state")], {"dt": dt} if dt_given else {})
+            return r, seen, dt, dflt
+
+        n = 0
+        for p, res in enumerate(explore_paths(U, body)):
+            P = prem_of(res.ctx)
+            nm = f"path{p}"
+            if res.outcome != "return":
+                U.prove(f"{nm}.returns_normally", P, z3.BoolVal(False), info={"exc": str(res.exc)})
+                continue
+            n += 1
+            r, seen, dt, dflt = res.value
+            U.prove(f"{nm}.backend_builds_exactly_one_stepper", P, z3.BoolVal(len(seen) == 1 and r == "stepper"))
+            if len(seen) != 1:
+                continue
+            want = dt if dt is not None else dflt
+            U.prove(f"{nm}.initial_dt_is_the_requested_one_else_dt_default_whatever_ran_before", P, to_z3(to_real(seen[0]["dt"])) == want,
+                    info={"replay_payload": {"reused_solver": True}})
+            U.prove(f"{nm}.step_count_starts_at_zero", P, to_z3(seen[0]["steps"]) == 0)
+        U.prove("has_normal_paths", [], z3.BoolVal(n >= 1))
+
+    return unit
+
+
 UNITS = [(f"key_injectivity[{a}|{b},{w}]", key_unit(a, b, w)) for a, b in PAIRS for w in ("bare", "pair", "list")] + [
     *[(f"numeric_arguments_get_distinct_keys[{w}]", numeric_key_unit(w)) for w in ("keyword", "positional", "nested")],
     *[(f"grid_cache_hash[{k}]", grid_hash_unit(k)) for k in ("CartesianGrid", "PolarSymGrid", "SphericalSymGrid", "CylindricalSymGrid")],
     *[(f"mutated_conditions_get_a_new_key[{w}]", mutation_unit(w)) for w in ("bare", "pair", "list")],
+    *[(f"reused_solver_object.make_stepper[adaptive={a},dt={'given' if d else 'None'}]", solver_reuse_unit(a, d)) for a in (False, True) for d in (False, True)],
     ("get_boundary_conditions_returns_fresh_objects", fresh_conditions_unit),
     ("key_determinism", same_object_same_key), ("rebinding_data_invalidates_cached_helpers", rebinding_unit), ("cache_wrapper", wrapper_unit)]
 
@@ -469,4 +518,4 @@ def bounded(tier, seed):
 
 TRUSTED = ["hash() collision free (injective constructor) except CPython's hash(-1) == hash(-2), which is modelled", "class table (which classes define __eq__ / __hash__) read from the source"]
 ASSUMPTIONS = ["global configuration fixed within a history", "numba's own dispatch caches and functools caches of dependencies are not covered"]
-NOT_COVERED = ["static reads-frame analysis of all 20 cache sites (only the interpolator / re-binding site is under contract)", "PDE._prepare_cache key (state.attributes): bounded native check only"]
+NOT_COVERED = ["static reads-frame analysis of all 20 cache sites (only the interpolator / re-binding site is under contract)", "PDE._prepare_cache key (state.attributes): bounded native check only", "per-run state of solver objects other than info['dt'] / info['steps'] (e.g. the history flag of Adams-Bashforth steppers, which lives in the stepper closure): bounded native check of second runs only"]
